@@ -236,7 +236,7 @@ def gen_vectors(rnd, tier):
         else:
             vs.append({'kind': 'sdate', 'sdate': sdate, 'stime': stime,
                        'tstep': tstep, 'n': n, 'want_bounds': True,
-                       'want_synth': False})
+                       'want_synth': tstep < 1000000})
     for i in range(100 if tier == 'quick' else 1000):
         n = rnd.randint(1, 3)
         base = rnd.choice([0, 24, 8760, 140256, 333333])
